@@ -512,6 +512,15 @@ func c09WS(rng *rand.Rand, row map[string]interface{}) (map[string]interface{}, 
 				}
 				hs[i].mu.Unlock()
 			}
+			// a well-formed notification produces nothing to read: its handler goroutine can be overtaken by the sentinels on a
+			// starved machine, so give it a bounded while (spent only on a tree that does not run it)
+			if e.idRaw == "" && k < 30 && (e.req == "void" || e.req == "val" || e.req == "herr" || e.req == "both" || e.req == "panic") {
+				hs[i].mu.Lock()
+				if hs[i].execs == 0 {
+					pending = true
+				}
+				hs[i].mu.Unlock()
+			}
 		}
 		if !pending {
 			hasSlow := false
